@@ -33,7 +33,7 @@ Record Inv (c : cfg) (x : st) : Prop := mkInv {
                 /\ In (LAct (s, b) (IBar cur) true) (log (dt x));
   i_olog : forall e s j, In e (log (dt x)) -> entry_origin e = Some (s, j) -> (j < acted x s)%nat;
   i_obatch : forall b s j, In b (batch (dt x)) -> org b = (s, j) -> (j < acted x s)%nat;
-  i_cev : forall s j id key tm, nth_error (items_of x s) j = Some (IEv id key tm) ->
+  i_cev : forall s j id key tm, stopped (dt x) = false -> nth_error (items_of x s) j = Some (IEv id key tm) ->
       In (LApp (BEv (s, j) id key tm)) (log (dt x)) \/ In (BEv (s, j) id key tm) (batch (dt x));
   i_cwm : forall s j t, nth_error (items_of x s) j = Some (IWm t) -> In (LAct (s, j) (IWm t) true) (log (dt x));
   i_faith : forall s j id key tm,
@@ -69,7 +69,7 @@ Proof.
   - discriminate.
   - intros e s j [].
   - intros b s j [].
-  - intros s j id key tm H. rewrite items_init in H. destruct j; discriminate.
+  - intros s j id key tm _ H. rewrite items_init in H. destruct j; discriminate.
   - intros s j t H. rewrite items_init in H. destruct j; discriminate.
   - intros s j id key tm [[]|[]].
   - intros s j k ts [[]|[]].
@@ -165,9 +165,9 @@ Proof.
   exfalso. apply (Hn (LCkpt cid snap)) with cid snap; auto. apply in_or_app. right. left. reflexivity.
 Qed.
 
-Lemma Inv_dext c x y : Inv c x -> dext [] (dt x) y -> Inv c (set_d x y).
+Lemma Inv_dext c x y : Inv c x -> dext [] (dt x) y -> active y = active (dt x) -> Inv c (set_d x y).
 Proof.
-  intros I (new & L & E & B & P & A). destruct I. unfold set_d.
+  intros I (new & L & E & B & P & A) Hact. destruct I. unfold set_d.
   assert (HB : forall b, In b (batch y) -> In b (batch (dt x))).
   { intros b Hb. destruct (B _ Hb) as [?|[]]; auto. }
   assert (HE : forall e, In e new -> (exists w, e = LCall w) \/ exists b, e = LApp b /\ In b (batch (dt x))).
@@ -178,7 +178,9 @@ Proof.
   - intros e s j He Ho. rewrite L in He. apply in_app_or in He. destruct He as [He|He]; [|eauto].
     destruct (HE _ He) as [(w & ->)|(b & -> & Hb)]; [discriminate|]. cbn in Ho. injection Ho as Ho. eauto.
   - intros b s j Hb. eauto.
-  - intros s j id key tm Hn. rewrite L. destruct (i_cev0 _ _ _ _ _ Hn) as [H|H].
+  - intros s j id key tm Hst Hn. rewrite L.
+    assert (Hst0 : stopped (dt x) = false) by (unfold stopped in *; rewrite <- Hact; exact Hst).
+    destruct (i_cev0 _ _ _ _ _ Hst0 Hn) as [H|H].
     + left. apply in_or_app; auto.
     + destruct (P _ (or_introl H)); [auto|left; apply in_or_app; auto].
   - intros s j t Hn. rewrite L. apply in_or_app. right. eauto.
@@ -208,7 +210,7 @@ Lemma items_upd_neq x s s' v ms ck dn y :
 Proof. intros H. unfold items_of; cbn. apply nth_set_nth_neq. exact H. Qed.
 
 Lemma Inv_handle_gen c x s it ok O y ck' :
-  Inv c x -> nth_error (modes x) s = Some (Passed it) ->
+  Inv c x -> nth_error (modes x) s = Some (Passed it) -> stopped (dt x) = false ->
   dext O (push_log (LAct (s, acted x s) it ok) (dt x)) y ->
   (forall b, In b O -> org b = (s, acted x s)) ->
   (forall o id key tm, In (BEv o id key tm) O -> it = IEv id key tm) ->
@@ -220,7 +222,7 @@ Lemma Inv_handle_gen c x s it ok O y ck' :
   (forall cur m, ck' = Some (cur, m) -> ~ In s m -> it = IBar cur /\ ok = true) ->
   Inv c (mkSt (set_nth s Idle (modes x)) (set_nth s (items_of x s ++ [it]) (sent x)) ck' (done x) y).
 Proof.
-  intros I Hmode (new & L & E & B & P & A) HO HOev HOtm Hev Hwm K1 K2.
+  intros I Hmode Hrun (new & L & E & B & P & A) HO HOev HOtm Hev Hwm K1 K2.
   pose proof (nth_error_lt _ _ _ Hmode) as Hsm.
   assert (Hsn : (s < n_senders c)%nat) by (rewrite <- (i_len_m _ _ I); exact Hsm).
   assert (Hss : (s < length (sent x))%nat) by (rewrite (i_len_s _ _ I); exact Hsn).
@@ -283,11 +285,11 @@ Proof.
   - (* origins in the batch *) intros b s' j Hb Ho. cbn in Hb. destruct (B _ Hb) as [Hb'|Hb'].
     + pose proof (i_obatch _ _ I _ _ _ Hb' Ho). pose proof (Hact s'). lia.
     + rewrite (HO _ Hb') in Ho. injection Ho as <- <-. lia.
-  - (* delivered events are pending or applied *) intros s' j id key tm Hn. cbn [dt x'].
+  - (* delivered events are pending or applied *) intros s' j id key tm _ Hn. cbn [dt x'].
     assert (Hpend : forall b, In b (batch (dt x)) \/ In b O -> In (LApp b) (log y) \/ In b (batch y)).
     { intros b Hb. destruct (P _ Hb); [auto|]. left. rewrite L. apply in_or_app. auto. }
     destruct (Hnthi _ _ _ Hn) as [H|(-> & -> & <-)].
-    + destruct (i_cev _ _ I _ _ _ _ _ H) as [H1|H1]; [left; apply HLy; exact H1|apply Hpend; auto].
+    + destruct (i_cev _ _ I _ _ _ _ _ Hrun H) as [H1|H1]; [left; apply HLy; exact H1|apply Hpend; auto].
     + apply Hpend. right. apply Hev. reflexivity.
   - (* watermarks *) intros s' j t Hn. destruct (Hnthi _ _ _ Hn) as [H|(-> & -> & <-)].
     + apply HLy. apply (i_cwm _ _ I _ _ _ H).
@@ -336,10 +338,11 @@ Qed.
 
 (* all barriers are in: db.Checkpoint, report, clear *)
 Lemma Inv_complete c z cur m :
-  Inv c z -> ckpt z = Some (cur, m) -> (forall s, (s < n_senders c)%nat -> ~ In s m) -> batch (dt z) = [] ->
+  Inv c z -> stopped (dt z) = false ->
+  ckpt z = Some (cur, m) -> (forall s, (s < n_senders c)%nat -> ~ In s m) -> batch (dt z) = [] ->
   Inv c (mkSt (modes z) (sent z) None (done z + 1) (push_log (LCkpt cur (applied (dt z), timers (dt z))) (dt z))).
 Proof.
-  intros I Ec Hall Hb. constructor; cbn [modes sent ckpt done dt push_log log batch applied].
+  intros I Hrun Ec Hall Hb. constructor; cbn [modes sent ckpt done dt push_log log batch applied].
   - apply (i_len_m _ _ I).
   - apply (i_len_s _ _ I).
   - intros s it _ (? & ? & ? & _). discriminate.
@@ -347,7 +350,7 @@ Proof.
   - discriminate.
   - intros e s j [<-|He] Ho; [discriminate|]. apply (i_olog _ _ I _ _ _ He Ho).
   - apply (i_obatch _ _ I).
-  - intros s j id key tm H. destruct (i_cev _ _ I _ _ _ _ _ H); [left; right|right]; auto.
+  - intros s j id key tm _ H. destruct (i_cev _ _ I _ _ _ _ _ Hrun H); [left; right|right]; auto.
   - intros s j t H. right. apply (i_cwm _ _ I _ _ _ H).
   - intros s j id key tm [[H|H]|H]; [discriminate| |]; apply (i_faith _ _ I); auto.
   - intros s j k ts [[H|H]|H]; [discriminate| |]; apply (i_ftm _ _ I s j k ts); auto.
@@ -363,7 +366,7 @@ Proof.
       * intros bi j [].
       * intros e j He Ho. pose proof (i_olog _ _ I _ _ _ He Ho). lia.
       * intros e j [].
-      * intros j id key tm Hj Hn. destruct (i_cev _ _ I _ _ _ _ _ Hn) as [?|Hx]; auto. rewrite Hb in Hx. destruct Hx.
+      * intros j id key tm Hj Hn. destruct (i_cev _ _ I _ _ _ _ _ Hrun Hn) as [?|Hx]; auto. rewrite Hb in Hx. destruct Hx.
       * intros j t Hj Hn. apply (i_cwm _ _ I _ _ _ Hn).
     + injection H as <- H. destruct (i_hist _ _ I _ _ _ _ H) as (Hsnap & b & Hbb). split; auto. exists b. intros s Hs.
       destruct (Hbb s Hs) as (B1 & B2 & B3 & B4 & B5 & B6 & B7 & B8). repeat split; auto.
@@ -375,15 +378,15 @@ Lemma passed_not_reg c x s it cur m :
 Proof. intros I Hm Ec Hn. apply (i_passed _ _ I _ _ Hm). exists cur, m. auto. Qed.
 
 Lemma Inv_handle_bar c x s cid ok y ck' :
-  Inv c x -> nth_error (modes x) s = Some (Passed (IBar cid)) ->
+  Inv c x -> nth_error (modes x) s = Some (Passed (IBar cid)) -> stopped (dt x) = false ->
   dext [] (push_log (LAct (s, acted x s) (IBar cid) ok) (dt x)) y ->
   (forall cur m s', ck' = Some (cur, m) -> (s' < n_senders c)%nat -> ~ In s' m -> s' <> s ->
         exists m0, ckpt x = Some (cur, m0) /\ ~ In s' m0) ->
   (forall cur m, ck' = Some (cur, m) -> ~ In s m -> IBar cid = IBar cur /\ ok = true) ->
   Inv c (mkSt (set_nth s Idle (modes x)) (set_nth s (items_of x s ++ [IBar cid]) (sent x)) ck' (done x) y).
 Proof.
-  intros I Hm Hd K1 K2.
-  apply (Inv_handle_gen c x s (IBar cid) ok [] y ck' I Hm Hd); auto.
+  intros I Hm Hrun Hd K1 K2.
+  apply (Inv_handle_gen c x s (IBar cid) ok [] y ck' I Hm Hrun Hd); auto.
   - intros b [].
   - intros o i k t [].
   - intros o k ts [].
@@ -394,7 +397,8 @@ Qed.
 Lemma Inv_handle c x s x' : Inv c x -> step c x (Handle s) = Some x' -> Inv c x'.
 Proof.
   intros I H. cbn in H. destruct (nth_error (modes x) s) as [[| |it]|] eqn:Hmode; try discriminate.
-  destruct (active (dt x)) as [|a0 act]; [discriminate|].
+  destruct (active (dt x)) as [|a0 act] eqn:Eact; [discriminate|].
+  assert (Hrun : stopped (dt x) = false) by (unfold stopped; rewrite Eact; reflexivity).
   injection H as <-.
   pose proof (nth_error_lt _ _ _ Hmode) as Hsm.
   assert (Hsn : (s < n_senders c)%nat) by (rewrite <- (i_len_m _ _ I); exact Hsm).
@@ -407,7 +411,7 @@ Proof.
   { intros ok cur m Ec Hn. exfalso. eapply passed_not_reg; eauto. }
   destruct it as [id key tm|t|cid|].
   - (* keyed event *)
-    apply (Inv_handle_gen c x s (IEv id key tm) true [BEv (s, acted x s) id key tm] _ (ckpt x) I Hmode); auto.
+    apply (Inv_handle_gen c x s (IEv id key tm) true [BEv (s, acted x s) id key tm] _ (ckpt x) I Hmode Hrun); auto.
     + apply add_item_dext.
     + intros b [<-|[]]. reflexivity.
     + intros o i k t [[= _ <- <- <-]|[]]. reflexivity.
@@ -416,7 +420,7 @@ Proof.
     + apply Kno.
   - (* watermark *)
     destruct (handle_wm_dext c (push_log (LAct (s, acted x s) (IWm t) true) (dt x)) (s, acted x s) t) as (O & HO & HB).
-    apply (Inv_handle_gen c x s (IWm t) true O _ (ckpt x) I Hmode HO); auto.
+    apply (Inv_handle_gen c x s (IWm t) true O _ (ckpt x) I Hmode Hrun HO); auto.
     + intros b Hb. destruct (HB _ Hb) as (k & ts & ->). reflexivity.
     + intros o i k tm Hb. destruct (HB _ Hb) as (? & ? & ?). discriminate.
     + intros o k ts _. exists t. reflexivity.
@@ -438,17 +442,18 @@ Proof.
            set (d1 := flush None (push_log (LAct (s, acted x s) (IBar cur) true) (dt x))).
            apply (Inv_complete c (mkSt (set_nth s Idle (modes x)) (set_nth s (items_of x s ++ [IBar cur]) (sent x))
                                        (Some (cur, [])) (done x) d1) cur []); cbn [ckpt dt]; auto.
-           ++ apply (Inv_handle_bar c x s cur true d1 (Some (cur, [])) I Hmode).
+           2:{ unfold stopped, d1. rewrite active_flush. cbn [push_log active]. rewrite Eact. reflexivity. }
+           ++ apply (Inv_handle_bar c x s cur true d1 (Some (cur, [])) I Hmode Hrun).
               ** apply flush_dext.
               ** rewrite Ec. apply K1. auto.
               ** apply K2.
            ++ apply flush_none_batch.
-        -- apply (Inv_handle_bar c x s cur true _ (Some (cur, r :: m')) I Hmode).
+        -- apply (Inv_handle_bar c x s cur true _ (Some (cur, r :: m')) I Hmode Hrun).
            ++ apply dext_refl.
            ++ rewrite Ec. apply K1. auto.
            ++ apply K2.
       * (* foreign id: rejected *)
-        apply (Inv_handle_bar c x s cid false _ (Some (cur, m)) I Hmode).
+        apply (Inv_handle_bar c x s cid false _ (Some (cur, m)) I Hmode Hrun).
         -- apply dext_refl.
         -- rewrite Ec. intros cur' m0 s' [= <- <-] Hlt Hn Hne. eauto.
         -- intros cur' m0 [= <- <-] Hn. exfalso. eapply passed_not_reg; eauto.
@@ -465,17 +470,18 @@ Proof.
       * set (d1 := flush None (push_log (LAct (s, acted x s) (IBar cid) true) (dt x))).
         apply (Inv_complete c (mkSt (set_nth s Idle (modes x)) (set_nth s (items_of x s ++ [IBar cid]) (sent x))
                                     (Some (cid, [])) (done x) d1) cid []); cbn [ckpt dt]; auto.
-        -- apply (Inv_handle_bar c x s cid true d1 (Some (cid, [])) I Hmode).
+        2:{ unfold stopped, d1. rewrite active_flush. cbn [push_log active]. rewrite Eact. reflexivity. }
+        -- apply (Inv_handle_bar c x s cid true d1 (Some (cid, [])) I Hmode Hrun).
            ++ apply flush_dext.
            ++ rewrite Ec. apply K1. auto.
            ++ apply K2.
         -- apply flush_none_batch.
-      * apply (Inv_handle_bar c x s cid true _ (Some (cid, r :: m')) I Hmode).
+      * apply (Inv_handle_bar c x s cid true _ (Some (cid, r :: m')) I Hmode Hrun).
         -- apply dext_refl.
         -- rewrite Ec. apply K1. auto.
         -- apply K2.
   - (* SourceComplete *)
-    apply (Inv_handle_gen c x s IDone true [] _ (ckpt x) I Hmode); auto.
+    apply (Inv_handle_gen c x s IDone true [] _ (ckpt x) I Hmode Hrun); auto.
     + destruct (errored _ _); [apply flush_dext|].
       change (@nil bitem) with (@nil bitem ++ []). eapply dext_trans; [apply flush_dext|]. apply dext_same; reflexivity.
     + intros b [].
@@ -492,7 +498,7 @@ Proof. unfold items_of; cbn. destruct (nth_repeat (@nil item) [] k s); auto. Qed
 Lemma Inv_deploy c x x' : Inv c x -> step c x Deploy = Some x' -> Inv c x'.
 Proof.
   intros I H. cbn in H. destruct (forallb _ (modes x)) eqn:Hidle; [|discriminate].
-  destruct (batch (dt x)); [|discriminate]. cbn in H. injection H as <-.
+  destruct (batch (dt x)); [|discriminate]. destruct (stopped (dt x)); [discriminate|]. cbn in H. injection H as <-.
   constructor; cbn [modes sent ckpt done dt batch log applied].
   - apply (i_len_m _ _ I).
   - apply repeat_length.
@@ -501,7 +507,7 @@ Proof.
   - discriminate.
   - intros e s j [].
   - intros b s j [].
-  - intros s j id key tm H. rewrite items_repeat in H. destruct j; discriminate.
+  - intros s j id key tm _ H. rewrite items_repeat in H. destruct j; discriminate.
   - intros s j t H. rewrite items_repeat in H. destruct j; discriminate.
   - intros s j id key tm [[]|[]].
   - intros s j k ts [[]|[]].
@@ -509,22 +515,47 @@ Proof.
   - intros [|? post] cid snap pre H; discriminate.
 Qed.
 
+(* the handler fails on a time-out flush: the batch is lost, the operator stops *)
+Lemma Inv_tfail c x x' : Inv c x -> step c x TimeoutFail = Some x' -> Inv c x'.
+Proof.
+  intros I H. cbn in H. destruct (sinkfault (dt x) || stopped (dt x)); [discriminate|].
+  destruct (inflight (dt x)) as [|t r]; [discriminate|].
+  assert (Hsame : forall y, log y = log (dt x) -> batch y = batch (dt x) -> applied y = applied (dt x) ->
+                   active y = active (dt x) -> Inv c (set_d x y)).
+  { intros y Hl Hb Ha Hact. apply Inv_dext; auto. apply dext_same; auto. }
+  destruct (batch (dt x)) as [|b0 bs] eqn:Eb.
+  - injection H as <-. apply Hsame; auto.
+  - destruct (t =? btoken (dt x)); injection H as <-; [|apply Hsame; auto].
+    destruct I. unfold set_d. constructor; cbn [modes sent ckpt done dt batch log applied active]; auto.
+    + intros b s j [].
+    + intros s j id key tm Hst. discriminate.
+    + intros s j id key tm [H|[]]. apply i_faith0. auto.
+    + intros s j k ts [H|[]]. apply (i_ftm0 s j k ts). auto.
+    + intros post cid snap pre HL.
+      change post with ([] ++ post). apply cut_ok_mono with (x := x); auto.
+      * intros s. exists []. rewrite app_nil_r. reflexivity.
+      * intros bi s j [].
+      * intros e s j [].
+Qed.
+
 Lemma Inv_step c x a x' : Inv c x -> step c x a = Some x' -> Inv c x'.
 Proof.
-  intros I H. destruct a as [s it|s|s| | |s| |].
+  intros I H. destruct a as [s it|s|s| | |s| | |].
   - eapply Inv_gate; eauto.
   - eapply Inv_wake; eauto.
   - eapply Inv_handle; eauto.
   - cbn in H. destruct (armed (dt x)); [|discriminate]. injection H as <-.
     apply Inv_dext; auto. apply dext_same; reflexivity.
-  - cbn in H. destruct (sinkfault (dt x)); [discriminate|].
+  - cbn in H. destruct (sinkfault (dt x) || stopped (dt x)); [discriminate|].
     destruct (inflight (dt x)) as [|t r]; [discriminate|]. injection H as <-.
     apply Inv_dext; auto.
-    change (@nil bitem) with (@nil bitem ++ []). eapply dext_trans; [|apply flush_dext]. apply dext_same; reflexivity.
+    + change (@nil bitem) with (@nil bitem ++ []). eapply dext_trans; [|apply flush_dext]. apply dext_same; reflexivity.
+    + rewrite active_flush. reflexivity.
   - cbn in H. destruct (nth_error (modes x) s) as [[| |]|]; try discriminate. injection H as <-. exact I.
   - cbn in H. destruct (sinkfault (dt x)); [discriminate|]. injection H as <-.
     apply Inv_dext; auto. apply dext_same; reflexivity.
   - eapply Inv_deploy; eauto.
+  - eapply Inv_tfail; eauto.
 Qed.
 
 (* ---------- schedules ---------- *)
@@ -558,7 +589,7 @@ Qed.
 
 Lemma step_full c x a x' s : Inv c x -> step c x a = Some x' -> a <> Deploy -> full x' s = full x s ++ gate_item a s.
 Proof.
-  intros I H Hnd. destruct a as [s' it|s'|s'| | |s'| |]; cbn [gate_item]; try congruence.
+  intros I H Hnd. destruct a as [s' it|s'|s'| | |s'| | |]; cbn [gate_item]; try congruence.
   - cbn in H. destruct (nth_error (modes x) s') as [[| |]|] eqn:E; try discriminate. injection H as <-.
     pose proof (nth_error_lt _ _ _ E) as Hlt. unfold full, with_mode, items_of; cbn [modes sent].
     destruct (Nat.eqb s' s) eqn:Es.
@@ -580,17 +611,21 @@ Proof.
     + rewrite !nth_set_nth_eq by auto. rewrite (nth_of_nth_error _ _ _ Idle E). cbn. rewrite app_nil_r. reflexivity.
     + rewrite !nth_set_nth_neq by exact Hne. reflexivity.
   - cbn in H. destruct (armed (dt x)); [|discriminate]. injection H as <-. unfold full. rewrite app_nil_r. reflexivity.
-  - cbn in H. destruct (sinkfault (dt x)); [discriminate|].
+  - cbn in H. destruct (sinkfault (dt x) || stopped (dt x)); [discriminate|].
     destruct (inflight (dt x)); [discriminate|]. injection H as <-. unfold full. rewrite app_nil_r. reflexivity.
   - cbn in H. destruct (nth_error (modes x) s') as [[| |]|]; try discriminate. injection H as <-.
     rewrite app_nil_r. reflexivity.
   - cbn in H. destruct (sinkfault (dt x)); [discriminate|]. injection H as <-. unfold full. rewrite app_nil_r. reflexivity.
+  - cbn in H. destruct (sinkfault (dt x) || stopped (dt x)); [discriminate|].
+    destruct (inflight (dt x)); [discriminate|]. rewrite app_nil_r.
+    destruct (batch (dt x)); [injection H as <-; reflexivity|].
+    destruct (_ =? _); injection H as <-; reflexivity.
 Qed.
 
 Lemma step_deploy_full c x x' s : step c x Deploy = Some x' -> full x' s = [].
 Proof.
   intros H. cbn in H. destruct (forallb _ (modes x)) eqn:Hidle; [|discriminate].
-  destruct (batch (dt x)); [|discriminate]. cbn in H. injection H as <-.
+  destruct (batch (dt x)); [|discriminate]. destruct (stopped (dt x)); [discriminate|]. cbn in H. injection H as <-.
   unfold full. rewrite items_repeat. cbn [modes]. rewrite (forallb_idle_nth _ _ Hidle). reflexivity.
 Qed.
 
